@@ -20,6 +20,7 @@ type c18Proc struct {
 	catches    bool // an intermediate message catch event (target of a message flow), followed by task B<i>
 	msgStart   bool // waiting process: message start event
 	executable bool
+	parMult    bool // the catch event is parallel-multiple with two message definitions (both delivered by the wake-up)
 }
 
 func c18Build(ps []c18Proc, flows [][2]string) string {
@@ -45,6 +46,10 @@ func c18Build(ps []c18Proc, flows [][2]string) string {
 		if c.catches {
 			cc := p.Node("catch", fmt.Sprintf("C%d", i))
 			cc.Inner = fmt.Sprintf(`<bpmn:messageEventDefinition id="cd%d" messageRef="m%d"/>`, i, i)
+			if c.parMult {
+				cc.Attrs = `parallelMultiple="true"`
+				cc.Inner += fmt.Sprintf(`<bpmn:messageEventDefinition id="cdx%d" messageRef="mx%d"/>`, i, i)
+			}
 			link(fmt.Sprintf("C%d", i))
 			p.Node("task", fmt.Sprintf("B%d", i))
 			link(fmt.Sprintf("B%d", i))
@@ -56,7 +61,7 @@ func c18Build(ps []c18Proc, flows [][2]string) string {
 	}
 	extra := ""
 	for i := range ps {
-		extra += fmt.Sprintf(`<bpmn:message id="m%d" name="m%d"/>`, i, i)
+		extra += fmt.Sprintf(`<bpmn:message id="m%d" name="m%d"/><bpmn:message id="mx%d" name="mx%d"/>`, i, i, i, i)
 	}
 	return SetXML(progs, ex, flows, extra)
 }
@@ -201,6 +206,10 @@ func runC18(env *Env) {
 		{"two throws at one catch event", []c18Proc{{executable: true, task: true, throws: true}, {executable: true, task: true, throws: true}, {executable: true, catches: true}},
 			[][2]string{{"H0", "C2"}, {"H1", "C2"}}, []string{"w", "t:T0", "w", "t:T1", "w", "t:B2", "W", "W"}, []string{"T0", "T1", "B2"},
 			func(d map[string]bool) bool { return !d["T0"] || !d["T1"] || !d["B2"] }, 3},
+		// the woken catch event is parallel-multiple with two definitions: the wake-up delivers an event for each
+		{"throw wakes a parallel-multiple catch event", []c18Proc{{executable: true, task: true, throws: true}, {executable: true, catches: true, parMult: true}},
+			[][2]string{{"H0", "C1"}}, []string{"w", "t:T0", "w", "t:B1", "W", "W"}, []string{"T0", "B1"},
+			func(d map[string]bool) bool { return !d["T0"] || !d["B1"] }, 2},
 		// two waiting processes instantiated by two throws, both alive at the same time: the set is complete only after both
 		{"two throws instantiate two waiting processes", []c18Proc{{executable: true, throws: true}, {executable: true, throws: true}, {msgStart: true, task: true}, {msgStart: true, task: true}},
 			[][2]string{{"H0", "s2"}, {"H1", "s3"}}, []string{"w", "t:T2", "w", "t:T3", "W", "W"}, []string{"T2", "T3"},
